@@ -34,9 +34,12 @@ func (d *DeterministicSampler) Start() error {
 	}
 	d.metricNames = newSamplerMetricNames("deterministic", d.Metrics)
 	// Get the actual upper bound - the largest possible value divided by
-	// the sample rate. In the case where the sample rate is 1, this should
-	// sample every value.
-	d.upperBound = math.MaxUint32 / uint32(d.sampleRate)
+	// the sample rate. Rates of 1 or less keep everything and never look at
+	// the bound. The division is done in 64 bits: uint32(rate) is 0 for every
+	// multiple of 2^32 and a small number for the rates just above them.
+	if d.sampleRate > 1 {
+		d.upperBound = uint32(math.MaxUint32 / uint64(d.sampleRate))
+	}
 
 	return nil
 }
